@@ -255,8 +255,8 @@ def _families(tier):
     quick_files = corpus.quick_files()
     if tier == 'quick':
         fams.append(('soups<=2/S21', [dict(id=i, code=c) for i, c in _soups(SIGMA21, 2)]))
-        fams.append(('soups<=4/S6', [dict(id='z' + i, code=c) for i, c in _soups(SIGMA6, 4)
-                                     if not i.startswith(('tok:0', 'tok:1:', 'tok:2:'))]))
+        fams.append(('soups=4/S5', [dict(id='z' + i, code=c) for i, c in _soups(SIGMA6[:5], 4)
+                                    if i.startswith('tok:4:')]))
         pref = []
         for name, text in quick_files[:6]:
             text = text[:400]
@@ -276,7 +276,7 @@ def _families(tier):
                                       code=text[:off] + ins + text[off:], mode='end'))
         fams.append(('small-edits(4 files)', edits))
         fams.append(('corpus-small(all positions)', [dict(id='file:' + n, code=t)
-                                                     for n, t in quick_files if len(t) < 700]))
+                                                     for n, t in quick_files if len(t) < 420]))
         fams.append(('statement-kind snippets(all positions)',
                      [dict(id='snip:' + k, code=v) for k, v in sorted(SNIPPETS.items())]))
         fams.append(('buffers inside an on-disk project x project options(all positions)',
